@@ -718,10 +718,136 @@ fn gen_fresh() -> BoxedStrategy<Value> {
     (vec(history_rules(), 2..=4), vec(history_data(), 2..=3), vec((0usize..4, 0usize..3).prop_map(|(i, j)| json!({"t": "call", "i": i, "j": j})), 3..=10)).prop_map(|(rules, datas, ops)| json!({"rules": rules, "datas": datas, "ops": ops})).boxed()
 }
 
+
+// ------------------------------------------------------------------------------------------------ process environment
+
+const ENV_VALUES: &[&str] = &["1", "true", "0", "strict", "js", "php", "compat", "debug", "off", ""];
+
+fn env_names(bin: &str) -> Vec<String> {
+    static CACHE: std::sync::Mutex<Option<(String, Vec<String>)>> = std::sync::Mutex::new(None);
+    let mut g = CACHE.lock().unwrap();
+    if let Some((b, v)) = &*g {
+        if b == bin {
+            return v.clone();
+        }
+    }
+    let v = cli::candidate_env_names(bin);
+    *g = Some((bin.to_string(), v.clone()));
+    v
+}
+
+/// The same call in a fresh process under the ordinary environment and under a hostile one (cleared, then every
+/// ALL-CAPS name found in the binary set to one value, Turkish locale, a far time zone, no HOME, another working
+/// directory): exit status and stdout must be identical, and equal to what the library gives in-process.
+fn check_environment(case: &Value, obs: &mut Obs) -> Result<(), String> {
+    let (rule, data) = match (via_text(rule_of(case)), via_text(data_of(case))) {
+        (Some(r), Some(d)) => (r, d),
+        _ => {
+            obs.skip("text-unstable-float");
+            return Ok(());
+        }
+    };
+    if let (Res::Unspec("over_budget"), _) = model::eval(&rule, &data) {
+        obs.skip("over_budget");
+        return Ok(());
+    }
+    let profile = if case["release"].as_bool().unwrap_or(false) { "release" } else { "dev" };
+    let bin = match cli::bin(profile) {
+        Some(b) => b,
+        None => return Err("oracle_broken: CLI binary missing (JLV_CLI_DEV / JLV_CLI_RELEASE)".into()),
+    };
+    let names = env_names(&bin);
+    if names.is_empty() {
+        return Err("oracle_broken: no candidate environment names found in the CLI binary".into());
+    }
+    let value = ENV_VALUES[case["value"].as_u64().unwrap_or(0) as usize % ENV_VALUES.len()];
+    let mut vars: Vec<(String, String)> = names.iter().map(|n| (n.clone(), value.to_string())).collect();
+    for (k, v) in [("LANG", "tr_TR.UTF-8"), ("LC_ALL", "tr_TR.UTF-8"), ("TZ", "Pacific/Kiritimati"), ("HOME", "/nonexistent"), ("TMPDIR", "/nonexistent"), ("COLUMNS", "1"), ("NO_COLOR", "1"), ("RUST_LOG", "trace")] {
+        vars.retain(|(n, _)| n != k);
+        vars.push((k.to_string(), v.to_string()));
+    }
+    let env = cli::Env { vars, cwd: "/".to_string() };
+    let got = call(&rule, &data, obs, "in-process")?;
+    let plain = cli::run(&bin, &rule.to_string(), &cli::Channel::Arg(data.to_string()))?;
+    let hostile = cli::run_env(&bin, &rule.to_string(), &cli::Channel::Arg(data.to_string()), Some(&env))?;
+    obs.evals += 2;
+    if plain.timed_out || hostile.timed_out {
+        return Err(format!("the jsonlogic command did not finish ({}) for {}", if hostile.timed_out { "hostile environment" } else { "ordinary environment" }, fmt_case(&rule, &data)));
+    }
+    if plain.code != hostile.code || plain.stdout != hostile.stdout {
+        return Err(format!(
+            "the result depends on the process environment: exit {:?} stdout {:?} in the ordinary environment, exit {:?} stdout {:?} with every ALL-CAPS name of the binary set to {:?}, tr_TR locale, another time zone and working directory ({} build): {}",
+            plain.code,
+            String::from_utf8_lossy(&plain.stdout).chars().take(200).collect::<String>(),
+            hostile.code,
+            String::from_utf8_lossy(&hostile.stdout).chars().take(200).collect::<String>(),
+            value,
+            profile,
+            fmt_case(&rule, &data)
+        ));
+    }
+    let stdout = String::from_utf8_lossy(&hostile.stdout).to_string();
+    match &got.out {
+        Out::Ok(v) => {
+            if hostile.code != Some(0) {
+                return Err(format!("in-process the library gives {} but the command exits {:?}: {}", v, hostile.code, fmt_case(&rule, &data)));
+            }
+            cli_stdout_matches(&stdout, &got.lines, Some(v)).map_err(|e| format!("hostile environment: {}: {}", e, fmt_case(&rule, &data)))?;
+        }
+        Out::Err(_) => {
+            if hostile.code == Some(0) {
+                return Err(format!("in-process the library fails but the command succeeds with {:?}: {}", stdout, fmt_case(&rule, &data)));
+            }
+        }
+        Out::Panic(m) => return Err(format!("PANIC {}", m)),
+    }
+    obs.nt(&format!("environment value {:?}, {} build", value, profile));
+    Ok(())
+}
+
+/// one probe per operator family on operands where other languages' or implementations' semantics differ from the
+/// listed ones (the place a mode switch would show), x every environment value x both builds
+fn fixed_env_probes() -> Vec<Value> {
+    let data = json!({"a": {"b": [1, "2", null]}, "s": "héllo", "z": "0", "e": "", "n": null, "xs": [0, "0", "", " ", [], [0], {}]});
+    let probes = vec![
+        json!({"!!": ["0"]}), json!({"!!": [[]]}), json!({"!!": [" "]}), json!({"!": [{}]}), json!({"if": ["0", 1, 2]}), json!({"?:": [[], 1, 2]}), json!({"and": ["0", [], 1]}), json!({"or": [0, "", []]}),
+        json!({"==": ["1", 1]}), json!({"==": [null, 0]}), json!({"==": ["a", "A"]}), json!({"==": ["1", "1.0"]}), json!({"!=": [[1], "1"]}), json!({"===": [1, 1.0]}), json!({"<": ["10", "9"]}), json!({"<": ["10", 9]}),
+        json!({"<=": [null, 0]}), json!({">": ["b", "a"]}), json!({"<": [1, 2, 3]}), json!({"+": ["1", "2"]}), json!({"+": ["2px", 3]}), json!({"-": ["5"]}), json!({"*": ["2", "3"]}), json!({"/": [1, 3]}), json!({"%": [-7, 3]}),
+        json!({"max": ["2", 10]}), json!({"min": [[], 1]}), json!({"cat": [null, 1.0, 1e21, -0.0, [1, [2]], {}]}), json!({"substr": [{"var": "s"}, 1, 2]}), json!({"substr": ["abc", -2]}), json!({"in": ["a", "ABC"]}), json!({"in": [1, ["1", 1.0]]}),
+        json!({"merge": [null, [1], [[2]]]}), json!({"var": "a.b.1"}), json!({"var": ["x", "d"]}), json!({"var": "n"}), json!({"var": ["n", 5]}), json!({"missing": ["a", "e", "x", ""]}), json!({"missing_some": [1, ["a", "x"]]}),
+        json!({"map": [[1, "2"], {"*": [{"var": ""}, 2]}]}), json!({"filter": [{"var": "xs"}, {"var": ""}]}), json!({"reduce": [[1, 2], {"+": [{"var": "current"}, {"var": "accumulator"}]}, 0]}), json!({"all": ["", true]}),
+        json!({"some": [{"var": "xs"}, {"var": ""}]}), json!({"none": [[], true]}), json!({"log": "x"}), json!({"cat": [{"log": [{"var": "z"}]}]}), json!({"unknown_operator": 1}), json!({"==": [1]}),
+    ];
+    let mut out = vec![];
+    for (i, r) in probes.iter().enumerate() {
+        for v in 0..ENV_VALUES.len() {
+            out.push(json!({"rule": r, "data": data, "release": (i + v) % 2 == 0, "value": v}));
+        }
+    }
+    out
+}
+
+fn gen_environment() -> BoxedStrategy<Value> {
+    let broad = rules::rooted(rules::Cfg::new(&["!", "!!", "if", "and", "or", "==", "!=", "===", "<", "<=", "+", "-", "*", "/", "%", "max", "cat", "substr", "in", "merge", "var", "missing", "missing_some", "map", "filter", "reduce", "all", "some", "none"]).leaf(gen::cmp_values()).poison(0).bad_arity(5).depth(2));
+    (prop_oneof![1 => history_rules(), 3 => broad], prop_oneof![1 => history_data(), 1 => gen::data_docs()], any::<bool>(), 0u64..10).prop_map(|(r, d, rel, v)| json!({"rule": r, "data": d, "release": rel, "value": v})).boxed()
+}
+
 pub fn property() -> Property {
     Property {
         id: "C17",
         subs: vec![
+            Sub {
+                name: "environment",
+                about: "the same call as the only call of a fresh process (jsonlogic command, dev and release builds) under the ordinary environment and under a hostile one - environment cleared, then every ALL-CAPS identifier found in the binary's own bytes (the names a program looks up are its string constants) set to one of 1 / true / 0 / strict / js / php / compat / debug / off / empty, Turkish locale, a far time zone, HOME and TMPDIR nonexistent, working directory / : exit status and stdout must be identical in both and equal to the in-process result and log lines; generated rules over all operator families with corner operands, plus 49 fixed probes (one per operator family on operands where other languages' or implementations' semantics differ) x every value. Evaluation is a function of rule and data only, not of the process environment.",
+                nontrivial: "every compared case.",
+                strategy: Some(gen_environment),
+                fixed: Some(fixed_env_probes),
+                fixed_exhaustive: false,
+                check: check_environment,
+                quick: 800,
+                thorough: 24_000,
+                small_stack: false,
+            },
             Sub {
                 name: "histories",
                 about: "a pool of 3-6 rules (conversion-sensitive arithmetic / comparisons over a small shared set of strings, logging rules, general rules, erroring rules) and 3-6 data values, and a sequence of 0-40 operations interpreted against the real library: Call(i,j), CallOnClones(i,j), Batch(2-8 threads with per-thread call lists, released by a barrier, sharing &Value); the worker process is never reset between histories. Invariants after every step: the result equals the reference semantics (= the result in isolation) and every other occurrence of the same call in the history and in its reversed re-run; rules and data serialise identically before and after; stdout is exactly one intact line per evaluated log (multiset under concurrency); stderr stays empty. The whole history shrinks as one value.",
